@@ -145,11 +145,22 @@ def make_database(panel=False):
     return make_db(G.ROWS, G.COLUMNS)
 
 
-def enter(entry, term, panel=False, rows=None, db=None):
-    """Runs one entry form on a freshly built expression; returns the value(s) if a number came back."""
+CATALOG_FORMS = ('selected-member', 'selected-member-under-an-operator')
+
+
+def enter(entry, term, panel=False, rows=None, db=None, catalog=None):
+    """Runs one entry form on a freshly built expression; returns the value(s) if a number came back.
+    `catalog`: the formula is the selected member of a Catalog (a multiple-expression node is one more operator kind a
+    fault can sit under); the other member is the plain number 1."""
     from vf.engine import make_biogeme, make_db
     import numpy as np
     expr = R.Builder(spec()).build(term)
+    if catalog is not None:
+        from biogeme.catalog import Catalog
+        import biogeme.expressions as ex
+        expr = Catalog.from_dict(catalog_name='cat_w', dict_of_expressions={'the_formula': expr, 'one': ex.Numeric(1.0)})
+        if catalog == 'selected-member-under-an-operator':
+            expr = expr + ex.Numeric(0.0)
     if db is not None:
         pass
     elif rows is not None:
@@ -243,6 +254,11 @@ def tasks(tier, seed):
     # audits its formulas again and must refuse
     for kind in ('column-dropped', 'invalid-choice-written', 'nan-written', 'valid-edit'):
         t.append(dict(part='stale_model', kind=kind, fresh=True))
+    # (b''') the table of a live model emptied through Database.remove: every request afterwards, also a second one after the
+    # first was refused, is refused with the library error
+    for first in ('ll', 'lld', 'sim'):
+        for second in ('ll', 'lld', 'sim'):
+            t.append(dict(part='stale_emptied', requests=[first, second], fresh=True))
     t.append(dict(part='sticky', fresh=True))
     # expected-error missing-data cases must be fresh; decided statically from the reference
     for task in t:
@@ -280,6 +296,8 @@ def run_task(task):
         _missing_model(task, rec)
     elif part == 'stale_model':
         _stale_model(task, rec)
+    elif part == 'stale_emptied':
+        _stale_emptied(task, rec)
     elif part == 'sticky':
         _sticky(rec)
     return rec.result()
@@ -302,6 +320,11 @@ def on_abort(task, info):
                     what=f"history [Database made on a non-empty table; remove() deletes every row ({task['how']}); {task['entry']}]: the "
                          f"process died (exit {info.get('exitcode')}) instead of a library error: {str(info.get('log_tail', ''))[-200:]}",
                     case={k: v for k, v in task.items() if k != 'fresh'})
+    if task.get('part') == 'stale_emptied':
+        return dict(key='C12|wrong-error-type-process-abort|history=[model, table emptied by remove, requests]',
+                    what=f"history [model built; Database.remove deletes every row; {task['requests']}]: the process died (exit "
+                         f"{info.get('exitcode')}) instead of a library error: {str(info.get('log_tail', ''))[-200:]}",
+                    case={k: v for k, v in task.items() if k != 'fresh'})
     return None
 
 
@@ -309,12 +332,13 @@ def site_name(p, s):
     return f'{p}[{G.slot_name(p, s)}]'
 
 
-def _judge(rec, fault, entry, p, s, wrapper, term, panel, case):
+def _judge(rec, fault, entry, p, s, wrapper, term, panel, case, catalog=None):
     """Runs one faulty specification through one entry form and applies the oracle."""
-    key = ('plant', fault, entry, p, s, wrapper)
-    where = f'fault={fault}:entry={entry}:under={p}' + ('' if wrapper is None else f':via={wrapper[0]}')
+    key = ('plant', fault, entry, p, s, wrapper, catalog)
+    where = f'fault={fault}:entry={entry}:under={p}' + ('' if wrapper is None else f':via={wrapper[0]}') + (
+        '' if catalog is None else ':in-a-catalog')
     try:
-        out = enter(entry, term, panel=panel)
+        out = enter(entry, term, panel=panel, catalog=catalog)
     except Exception as e:
         if is_library_error(e):
             named = ELEMENT[fault].lower() in str(e).lower()
@@ -388,6 +412,11 @@ def _plant(task, rec):
                 case = dict(part='plant', fault=fault, p=p, s=s, wrapper=list(wrapper) if wrapper else None, entry=entry, tier=tier)
                 # as a weight formula on panel data the faulty part stands alone (a trajectory has no place in a weight)
                 _judge(rec, fault, entry, p, s, wrapper, raw_term if (panel and entry == 'biogeme_weight_formula') else term, panel, case)
+                if wrapper is None:
+                    # the same faulty formula as the selected member of a Catalog (alone / under an operator)
+                    for cform in CATALOG_FORMS:
+                        _judge(rec, fault, entry, p, s, wrapper, raw_term if (panel and entry == 'biogeme_weight_formula') else term, panel,
+                               dict(case, catalog=cform), catalog=cform)
 
 
 def _plant_engine(task, rec):
@@ -449,11 +478,14 @@ def _valid(task, rec):
             if not rows:
                 rec.count('valid_skeletons_without_in_domain_row')
                 continue
-            for entry in BIOGEME_ENTRIES + EXPR_ENTRIES:
+            for entry, cform in [(e_, None) for e_ in BIOGEME_ENTRIES + EXPR_ENTRIES] + (
+                    [(e_, c_) for e_ in BIOGEME_ENTRIES + EXPR_ENTRIES for c_ in CATALOG_FORMS] if wrapper is None else []):
                 case = dict(part='valid', p=p, s=s, wrapper=list(wrapper) if wrapper else None, entry=entry, tier=task['tier'])
-                key = ('valid', entry, p, s, wrapper)
+                if cform is not None:
+                    case['catalog'] = cform
+                key = ('valid', entry, p, s, wrapper, cform)
                 try:
-                    out = enter(entry, term, rows=rows)
+                    out = enter(entry, term, rows=rows, catalog=cform)
                 except Exception as e:
                     rec.case(key, ('valid', entry, p, s, wrapper, type(e).__name__), outcome='rejected')
                     rec.violation(f'C12|valid-specification-rejected-{type(e).__name__}|entry={entry}:under={p}',
@@ -699,6 +731,11 @@ def _structural(rec):
         return make_database()
 
     def via(entry, expr):
+        if entry.endswith('-in-a-catalog'):
+            # the model is the selected member of a Catalog (one more operator kind a fault can sit under)
+            from biogeme.catalog import Catalog
+            expr = Catalog.from_dict(catalog_name='cat_s', dict_of_expressions={'the_formula': expr, 'one': ex.Numeric(1.0)})
+            entry = entry[:-len('-in-a-catalog')]
         if entry == 'biogeme':
             b = make_biogeme(db(), expr)
             return b.calculate_likelihood(np.array(b.id_manager.free_betas_values), scaled=False)
@@ -786,7 +823,7 @@ def _structural(rec):
                               f'valid {name} model rejected: {str(e)[:200]}', dict(part='structural'))
                 rec.retire = True
     for name, fn in cases.items():
-        for entry in ('biogeme', 'expression'):
+        for entry in ('biogeme', 'expression', 'biogeme-in-a-catalog', 'expression-in-a-catalog'):
             _expect_refusal(rec, f'{name}', entry, lambda fn=fn, entry=entry: fn(entry))
     # nests: every position of an overlap / of an alternative outside the choice set, among three nests over six
     # alternatives, in both nest syntaxes, for the nested and the cross-nested logit
@@ -836,6 +873,27 @@ def _structural(rec):
             rec.violation(f'C12|valid-specification-rejected-{type(e).__name__}|structural:three-nests:{entry}',
                           f'valid three-nest model rejected: {str(e)[:200]}', dict(part='structural'))
             rec.retire = True
+    # a nests object that was valid when it was made and first used, then edited in place (its nests are kept by reference)
+    # so that a nest overlaps another one / leaves the choice set: the next model built with the same object is refused
+    for entry in ('biogeme', 'expression'):
+        for what in ('overlap', 'leaves', 'leaves-by-append'):
+            for k in range(3):
+                def edited(e, what=what, k=k):
+                    the_nests = tuple(OneNestForNestedLogit(mus(j), list(n), f'n{j}') for j, n in enumerate(base_nests))
+                    holder = NestsForNestedLogit(choice_set=[1, 2, 3, 4, 5, 6], tuple_of_nests=the_nests)
+                    via(e, models.lognested(V6(), None, holder, ex.Variable('choice')))          # valid: accepted
+                    if what == 'overlap':
+                        the_nests[k].list_of_alternatives.append(base_nests[(k + 1) % 3][0])
+                    elif what == 'leaves':
+                        the_nests[k].list_of_alternatives[-1] = 9
+                    else:
+                        the_nests[k].list_of_alternatives.append(9)
+                    return via(e, models.lognested(V6(), None, holder, ex.Variable('choice')))
+                try:
+                    _expect_refusal(rec, f'nests-object-edited-after-a-first-use:{what}:nest={k}', entry, lambda fn=edited, entry=entry: fn(entry))
+                except Exception as e:
+                    rec.violation(f'C12|valid-specification-rejected-{type(e).__name__}|structural:three-nests-before-the-edit:{entry}',
+                                  f'{type(e).__name__}: {str(e)[:200]}', dict(part='structural'))
     # second derivatives without first ones
     f = ex.Beta('b1', 0.5, None, None, 0) * ex.Variable('x1')
     _expect_refusal(rec, 'hessian-without-gradient', 'get_value_and_derivatives',
@@ -1082,6 +1140,51 @@ def _stale_model(task, rec):
         rec.count('stale_model_nan_written_accepted_by_simulate')      # the statement lists NaN data for the data, judged at creation
 
 
+def _stale_emptied(task, rec):
+    """History [valid model built and used; Database.remove deletes every row; two requests in a row on the same object].  Empty
+    data are refused with the library error 'before any number is produced' - by the first request and again by the next one
+    (a refusal leaves nothing behind that makes the object believe its data are current)."""
+    import numpy as np
+    from biogeme.exceptions import BiogemeError
+    from vf.engine import make_db, make_biogeme
+    rows = [dict(x1=1.0, x2=-1.0, c=1.0, u=3.0), dict(x1=2.0, x2=0.5, c=2.0, u=4.0), dict(x1=0.5, x2=2.0, c=2.0, u=5.0)]
+    sp = {'b': (0.5, None, None, 0)}
+    ll_t = ('loglogit', ('var', 'c'), ((1, ('*', ('beta', 'b'), ('var', 'x1')), None), (2, ('*', ('beta', 'b'), ('var', 'x2')), None)))
+    case = {k: v for k, v in task.items() if k != 'fresh'}
+    rec.retire = True
+    db = make_db(rows, ['x1', 'x2', 'c', 'u'])
+    b = make_biogeme(db, {'log_like': R.Builder(sp).build(ll_t), 'f': R.Builder(sp).build(('*', ('beta', 'b'), ('var', 'u')))})
+    b.calculate_likelihood(np.array([0.5]), scaled=False)
+    db.remove(R.Builder(sp).build(('>', ('var', 'x1'), ('num', -1000.0))))
+    if len(db.data) != 0:
+        rec.violation('C12|harness|emptied-table-not-empty', f'{len(db.data)} rows left', case)
+        return
+    for k, req in enumerate(task['requests']):
+        hist = task['requests'][:k + 1]
+        key = ('stale_emptied', tuple(hist))
+        try:
+            if req == 'll':
+                out = [float(b.calculate_likelihood(np.array([0.5]), scaled=False))]
+            elif req == 'lld':
+                out = [float(b.calculate_likelihood_and_derivatives(np.array([0.5]), scaled=False, hessian=False, bhhh=False).function)]
+            else:
+                out = [float(v) for v in b.simulate({'b': 0.5})['f']]
+        except BiogemeError:
+            rec.case(key, (tuple(hist), 'refused'), outcome='refused')
+            continue
+        except Exception as e:
+            rec.case(key, (tuple(hist), type(e).__name__), outcome='wrong-error')
+            rec.violation(f'C12|wrong-error-type-{type(e).__name__}|history=[model, table emptied by remove, requests]',
+                          f'requests {hist} after the table was emptied: {type(e).__name__}: {str(e)[:200]}', case)
+            return
+        rec.case(key, (tuple(hist), 'accepted'), outcome='accepted')
+        if any(v == v and v != 0.0 for v in out):
+            rec.violation('C12|faulty-specification-accepted|history=[model, table emptied by remove, requests]',
+                          f'requests {hist} after Database.remove deleted every row: the last one returned {out}', case, observed=out)
+            return
+        rec.count('stale_emptied_request_returned_nothing_or_zero')
+
+
 def _missing_model(task, rec):
     """A weighted logit model under a declared missing-data code of -77.  `what` = a cell holds 99999 (an ordinary number under
     that declaration: the model is accepted and the log likelihood is the weighted sum computed with 99999) / a cell holds
@@ -1164,7 +1267,7 @@ def replay(case):
         if panel and case['entry'] != 'biogeme_weight_formula':
             term = ('*', ('traj', ('exp', ('*', ('beta', 'b_z'), ('var', 'x2')))), term)
         try:
-            _judge(rec, case['fault'], case['entry'], case['p'], case['s'], wrapper, term, panel, case)
+            _judge(rec, case['fault'], case['entry'], case['p'], case['s'], wrapper, term, panel, case, catalog=case.get('catalog'))
         except StopTask:
             pass
     elif part == 'plant_engine':
@@ -1179,6 +1282,8 @@ def replay(case):
         _missing_model(case, rec)
     elif part == 'stale_model':
         _stale_model(case, rec)
+    elif part == 'stale_emptied':
+        _stale_emptied(case, rec)
     elif part == 'emptied':
         # replayed in a child process: the engine may abort
         import multiprocessing as mp
